@@ -19,8 +19,8 @@ RULE = ("all operation histories of length <= d over the alphabet of mc/ops.py (
         "state = canonical primary walk (ids renamed by first occurrence); a history is non-trivial if "
         "its last operation is not refused by the model; distinct by construction")
 ASSUMPTIONS = [
-    "histories from the mini / empty / xmini seeds run while a second file built from the same seed is open in the same "
-    "process; it must read unchanged afterwards",
+    "histories from the empty seed and the one-operation histories from mini / xmini run while a second file built from the "
+    "same seed is open in the same process; it must read unchanged afterwards",
     "small-scope hypothesis: 1-2 names per kind, value alphabets of 2-4 values per attribute",
     "ids and clock are made deterministic through module-attribute seams (mc/env.py)",
     "histories whose earlier step already disagreed with the model are not extended (counted as pruned)",
@@ -61,7 +61,7 @@ def cases(tier):
             for pat in patterns:
                 hs = None if pat == "fresh" else [pat[i % len(pat)] for i in range(len(h))]
                 c = {"seed": seed, "ops": h, "h": hs}
-                if seed in ("mini", "empty", "xmini"):
+                if seed == "empty" or (seed in ("mini", "xmini") and len(h) == 1):
                     c["twin"] = True       # a second file with the same content stays open in the process
                 out.append(c)
 
